@@ -459,6 +459,30 @@ end
 /-- the value of a text (a closed expression) when evaluated with `n` as the next fresh address -/
 def evalG {τ : Type} (env : Env) (L : Lex τ) (e : G τ) (n : St) : Res (Val × St) := evalE env L e n
 
+/-! ## Which types the generator supports, and "exported fields" -/
+
+/-- the generator has a case for every constituent of `T` (`genStatement`/`genField` know basic,
+pointer, struct, slice, array and map types; names must be declared) -/
+def okG (env : Env) : Ty → Bool
+  | .basic _ => true
+  | .named i => (env.decl? i).isSome
+  | .ptr R => okG env R
+  | .slice E => okG env E
+  | .array _ E => okG env E
+  | .map K V => okG env K && okG env V
+  | .struct fs => okG env fs
+  | .fnil => true
+  | .fcons F r => okG env F && okG env r
+  | _ => false
+
+/-- `deriveGoString` is generated for `T` (closed world: named types may be recursive, so every
+declaration of the environment is checked rather than the ones reachable from `T`) -/
+def SupportedGS (env : Env) (T : Ty) : Bool := okG env T && env.decls.all fun d => okG env d.under
+
+/-- every field of every declared struct type is exported (unnamed struct types of the universe carry
+no field names; the corpus spells all of theirs with capitals) -/
+def ExportedOnly (env : Env) : Bool := env.decls.all fun d => d.privMask.all fun p => !p
+
 /-! ## The value-level lexical layer used by the driver and by the non-vacuity examples
 
 Leaf texts are the values themselves; reading back maps `-0.0` to `+0.0` (the compiler evaluates the
